@@ -114,7 +114,9 @@ var c20Fragments = [][]string{
 	{"SELECT", "'🙂;；ｘ\uffee\U0010ffff'", "FROM", "t", ";"}, // characters beyond the private key codes of the line editor (emoji, fullwidth forms, the last code point)
 	{"SELECT", "'\ud7ff\ue000;'", ";"},                     // the code points right below and above the surrogate range
 	{"SELECT", "'a;^ b^^c'", ";"},
-	{";"}, // an empty statement: the statements around it still arrive, whole and once
+	{";"},                                       // an empty statement: the statements around it still arrive, whole and once
+	{"SELECT", "'src/*.go;'", "FROM", "t", ";"}, // what other dialects read as comment marks is plain text inside a literal
+	{"SELECT", "'*/;--x'", ",", "\"#;//\"", ";"},
 }
 
 // render types one statement with the given gap choices (bit i set = line break in gap i).
